@@ -39,6 +39,7 @@ type C06Case struct {
 	Attempts []C06Fault `json:"attempts"`    // script for attempt 1..n; further attempts get "ok"
 	HoldMs   int        `json:"hold_ms"`     // pause of the handler after the first write (lets an early fault land while streaming)
 	HeaderMs int        `json:"header_ms"`   // pause of the handler before WriteHeader (a slow backend: all attempts may fail before the response exists)
+	LockStep bool       `json:"lock_step"`   // after its first write the handler continues only when a later attempt has received that first part (or 8 s have passed): a producer that waits for its consumer
 	VMID     bool       `json:"vm_identity"` // the proxy client is wrapped the way the agent wraps it on GCE (utils.RoundTripperWithVMIdentity, fake metadata server)
 }
 
@@ -105,6 +106,7 @@ type c06Server struct {
 	script   []C06Fault
 	wg       sync.WaitGroup
 	stop     chan struct{} // closed when the case is over
+	prog     [8]int64      // payload bytes received so far, per attempt (atomic)
 }
 
 func (s *c06Server) serve() {
@@ -247,6 +249,9 @@ func (s *c06Server) handle(conn net.Conn, n int, f C06Fault) {
 			buf := make([]byte, want)
 			k, err := io.ReadFull(br, buf)
 			payload.Write(buf[:k])
+			if n < len(s.prog) {
+				atomic.StoreInt64(&s.prog[n], int64(payload.Len()))
+			}
 			sz -= int64(k)
 			if err != nil {
 				record()
@@ -321,6 +326,7 @@ func c06Run(c C06Case, bound time.Duration) C06Result {
 	done := make(chan struct{})
 	var hm sync.Mutex
 	var hWriteErr, hCloseErr, hPanic string
+	lockStepStalled := false
 	go func() {
 		defer close(done)
 		p := Recovered(func() {
@@ -376,6 +382,22 @@ func c06Run(c C06Case, bound time.Duration) C06Result {
 				off = end
 				if i == 0 && c.HoldMs > 0 {
 					time.Sleep(time.Duration(c.HoldMs) * time.Millisecond)
+				}
+				if i == 0 && c.LockStep {
+					// continue only when an attempt after the first has received this first part
+					ok := false
+					for dl := time.Now().Add(8 * time.Second); time.Now().Before(dl) && !ok; time.Sleep(2 * time.Millisecond) {
+						for k := 1; k < len(srv.prog); k++ {
+							if atomic.LoadInt64(&srv.prog[k]) >= int64(end) {
+								ok = true
+							}
+						}
+					}
+					if !ok {
+						hm.Lock()
+						lockStepStalled = true
+						hm.Unlock()
+					}
 				}
 				if c.DelayMs > 0 {
 					time.Sleep(time.Duration(c.DelayMs) * time.Millisecond)
@@ -436,6 +458,12 @@ func c06Run(c C06Case, bound time.Duration) C06Result {
 		if i > 0 && res.Attempts[i-1].Received > 4096 {
 			res.Violations = append(res.Violations, fmt.Sprintf("retry-after-unreplayable|%s|attempt %d was made although the proxy had already received %d (>4096) payload bytes in the failed attempt before it", res.Attempts[i-1].Kind, a.N, res.Attempts[i-1].Received))
 		}
+	}
+	hm.Lock()
+	stalled := lockStepStalled
+	hm.Unlock()
+	if stalled {
+		res.Violations = append(res.Violations, fmt.Sprintf("retry-waited-for-more-output|%s|the first attempt was turned down after the proxy had received the first part of the response; for 8 s no later attempt delivered that part again, although it could be replayed - the retry only moved when the handler produced more output", res.Attempts[0].Kind))
 	}
 	if len(res.Attempts) > 3 {
 		res.Violations = append(res.Violations, fmt.Sprintf("too-many-attempts||%d upload attempts", len(res.Attempts)))
